@@ -82,6 +82,11 @@ class FFTWrapper:
     def call(self, x):
         if x.shape != self._inshape:
             raise ValueError(f"Expected input of shape {self._inshape}, got {x.shape}")
+        in_dtype = np.float64 if (self._r2c and self._fwd) else np.complex128
+        if in_dtype is np.float64 and np.iscomplexobj(x):
+            raise ValueError("Expected real input for a forward real-to-complex plan")
+        # the C routines read a C-contiguous buffer of the plan's element type
+        x = np.ascontiguousarray(x, dtype=in_dtype)
         dtype = np.float64 if (self._r2c and not self._fwd) else np.complex128
         out = np.empty(self._outshape, dtype=dtype)
         libfft.write_fft_input(self._ptr, x.ctypes.data_as(ctypes.c_void_p))
